@@ -537,11 +537,20 @@ def oracle_terms(case, lat, n_cells=1):
             if not bxs:
                 continue
             arr = to_array(s, shape)
+            ostr = call.get('op_string') if f == 'add_coupling' else None
             for idx, ps in bxs:
                 sites = [pos.get(p + (o[2],)) for p, o in zip(ps, ops)]
                 if any(v is None for v in sites):
                     continue
-                terms.append((complex(arr[idx]), [(o[0], i) for o, i in zip(ops, sites)], ph))
+                if ostr is not None and ostr != 'JW':
+                    # explicit string between the two (bosonic) operators: plain tensor product
+                    i, j = sites
+                    od = {i: ops[0][0], j: ops[1][0]}
+                    for k in range(min(i, j) + 1, max(i, j)):
+                        od[k] = ostr
+                    terms.append(('string', complex(arr[idx]), od, ph))
+                else:
+                    terms.append((complex(arr[idx]), [(o[0], i) for o, i in zip(ops, sites)], ph))
         elif f == 'add_local_term':
             term = []
             okk = True
@@ -637,10 +646,12 @@ def oracle_matrix(case, lat, n_cells=1):
     for t in oracle_terms(case, lat, n_cells):
         if t[0] == 'raw':
             m = raw_call_matrix(mb, t[1], N, n_cells if lat.bc_MPS != 'finite' else None)
+        elif t[0] == 'string':
+            m = t[1] * mb.string(t[2])
         else:
             c, term, _ = t
             m = c * mb.product(term)
-        if t[2]:
+        if t[-1]:
             B = B + m
         else:
             A = A + m
